@@ -24,7 +24,7 @@ ASSUMPTIONS = ['scalar results are compared as 0-d arrays (Darr returns np.array
                'error classes are compared up to subclass relation']
 ANCHORS = ['array:Array.__getitem__', 'array:Array.__setitem__', 'array:Array._open_array',
            'array:Array.open_array', 'array:Array.check_arraywriteable']
-REQUIRED = ['mon.child_status', 'mon.read_vs_numpy', 'mon.assign_vs_numpy', 'mon.ownership', 'mon.fdmap', 'mon.inside_eq_outside',
+REQUIRED = ['mon.readonly_assignments', 'mon.child_status', 'mon.read_vs_numpy', 'mon.assign_vs_numpy', 'mon.ownership', 'mon.fdmap', 'mon.inside_eq_outside',
             'mon.durability_child', 'mon.error_class']
 MIN_NONTRIVIAL = {'quick': 800, 'thorough': 15000}
 
@@ -104,7 +104,7 @@ def cases(tier, seed):
     n = 1500 if tier == 'quick' else 30000
     for k in range(n):
         yield {'t': 'seq', 'shape': list(SHAPES[k % len(SHAPES)]), 'numtype': DTYPES[(k // len(SHAPES)) % len(DTYPES)],
-               'bo': gens.BO[k % 2], 'k': k, 'len': rng.randint(5, 30)}
+               'bo': gens.BO[k % 2], 'k': k, 'len': rng.randint(5, 30), 'mode': 'r' if k % 7 == 3 else 'r+'}
     for k in range(48 if tier == 'quick' else 400):
         yield {'t': 'durability', 'numtype': DTYPES[k % len(DTYPES)], 'bo': gens.BO[k % 2],
                'fate': ['overwrite', 'truncate', 'delete', 'recreate'][k % 4], 'k': k}
@@ -151,7 +151,9 @@ def run_sequence(case, env):
         path = d / 'a'
         ref = gens.distinct_values(rng, dtype, shape) if np.prod(shape) else np.zeros(shape, dtype)
         ref = ref.copy()
-        a = D.asarray(path, ref.copy(), accessmode='r+', chunklen=3)
+        readonly = case.get('mode') == 'r'
+        a = D.asarray(path, ref.copy(), accessmode='r' if readonly else 'r+', chunklen=3)
+        kept_exc = []
         descs = []
         goodreads = 0
         for step in range(case['len']):
@@ -176,6 +178,7 @@ def run_sequence(case, env):
                         got[where] = ('ok', v)
                     except Exception as e:
                         got[where] = ('err', type(e), str(e)[:80])
+                        kept_exc.append(e)      # a caller may keep the exception (and its traceback) alive
                     res.count('mon.fdmap')
                     leak = fdmap(path)
                     if leak:
@@ -245,6 +248,7 @@ def run_sequence(case, env):
                     exp = ('err', type(e), str(e)[:80])
                     new = ref
                 inside = rng.random() < 0.5
+                got2 = None
                 try:
                     if inside:
                         with a.open_array():
@@ -254,12 +258,38 @@ def run_sequence(case, env):
                     got = ('ok',)
                 except Exception as e:
                     got = ('err', type(e), str(e)[:80])
+                    kept_exc.append(e)
+                if readonly:
+                    # the same assignment the other way round: inside and outside must agree
+                    try:
+                        if inside:
+                            a[idx] = v
+                        else:
+                            with a.open_array():
+                                a[idx] = v
+                        got2 = ('ok',)
+                    except Exception as e:
+                        got2 = ('err', type(e), str(e)[:80])
+                        kept_exc.append(e)
                 res.count('mon.fdmap')
                 leak = fdmap(path)
                 if leak:
                     res.fail(f'fd-leak-after-assignment:{got[0]}', f'step {step} assign {desc}: still open: {leak}', step=step, index=desc)
                     break
                 res.count('mon.assign_vs_numpy')
+                if readonly:
+                    res.count('mon.readonly_assignments')
+                    new = ref
+                    if got[0] == 'ok' or got2[0] == 'ok':
+                        res.fail('readonly-assignment-accepted', f'step {step} a[{desc}] = <{vkind}> through a handle in mode r did not raise',
+                                 step=step, index=desc)
+                        break
+                    if exp[0] == 'ok' and not related(got[1], got2[1]):
+                        res.fail(f'readonly-assignment-error-differs-inside-outside:{got[1].__name__}-vs-{got2[1].__name__}',
+                                 f'step {step} a[{desc}] = <{vkind}> in mode r raises {got[1].__name__} {"inside" if inside else "outside"} '
+                                 f'a context but {got2[1].__name__} {"outside" if inside else "inside"}', step=step, index=desc)
+                        break
+                    exp = ('err', got[1], '')
                 if exp[0] == 'ok' and got[0] != 'ok':
                     res.fail(f'assign-raised-where-numpy-accepts:{got[1].__name__}',
                              f'step {step} a[{desc}] = <{vkind}> raised {got[1].__name__}: {got[2]}', step=step, index=desc, vkind=vkind)
@@ -289,7 +319,8 @@ def run_sequence(case, env):
                 if res.fails:
                     break
         res.nontrivial = goodreads >= 1
-        res.sig = repr((shape, case['numtype'], case['bo'], descs))
+        res.sig = repr((shape, case['numtype'], case['bo'], case.get('mode'), descs))
+        res.dim('handle_mode', case.get('mode', 'r+'))
         res.dim('dtype', f"{case['numtype']}/{case['bo']}")
         res.dim('rank', len(shape))
         return res
